@@ -254,24 +254,32 @@ class GenA:
         cap = fmt_quantity(rng, round_sig(rng, self.volume_scale() * rng.uniform(0.5, 3), True), 'L')
         return {'op': 'new_plate', 'name': name, 'cap': cap, 'rows': rows, 'cols': cols}
 
-    # ---- operand choice
+    # ---- operand choice (overridden by the recipe generator, whose state lives in the eager reference)
+    def names(self, kind):
+        return self.W.names(kind)
+
+    def n_versions(self, name):
+        return len(self.W.reg[name])
+
+    def resolved_version(self, name, ver):
+        return self.W.resolve(name, ver)[1]
+
+    def latest_model(self, name, ver):
+        obj, v = self.W.resolve(name, ver)
+        return self.W.alpha(obj), obj
+
     def pick(self, kind, nonempty=None):
         rng = self.rng
-        W = self.W
-        names = W.names(kind)
+        names = self.names(kind)
         if not names:
             return None
         name = rng.choice(names)
-        n_ver = len(W.reg[name])
+        n_ver = self.n_versions(name)
         if n_ver > 1 and rng.random() < self.p.get('stale_p', 0.15):
             ver = rng.randrange(n_ver)
         else:
             ver = -1
         return name, ver
-
-    def latest_model(self, name, ver):
-        obj, v = self.W.resolve(name, ver)
-        return self.W.alpha(obj), obj
 
     def nonempty_cells(self, mp):
         return [c for c in mp.all_cells() if any(a > 0 for a in mp.well(c).contents.values())]
@@ -313,13 +321,13 @@ class GenA:
         ms, sobj = self.latest_model(*s)
         # prefer sources that hold something
         if src_kind == 'container' and not any(a > 0 for a in ms.contents.values()) and rng.random() < 0.85:
-            cands = [n for n in W.names('container') if any(a > 0 for a in W.alpha(W.reg[n][-1]).contents.values())]
+            cands = [n for n in self.names('container') if any(a > 0 for a in self.latest_model(n, -1)[0].contents.values())]
             if not cands:
                 return None
             s = (rng.choice(cands), -1)
             ms, sobj = self.latest_model(*s)
         if src_kind == 'plate' and not self.nonempty_cells(ms) and rng.random() < 0.85:
-            cands = [n for n in W.names('plate') if self.nonempty_cells(W.alpha(W.reg[n][-1]))]
+            cands = [n for n in self.names('plate') if self.nonempty_cells(self.latest_model(n, -1)[0])]
             if not cands:
                 return None
             s = (rng.choice(cands), -1)
@@ -328,13 +336,13 @@ class GenA:
         if src_kind == 'plate' and dst_kind == 'plate' and rng.random() < self.p.get('same_plate_p', 0.3):
             d = s
             same_plate = True
-        sv = W.resolve(*s)[1]
-        dv = W.resolve(*d)[1]
+        sv = self.resolved_version(*s)
+        dv = self.resolved_version(*d)
         if s[0] == d[0] and sv == dv:
             if src_kind == 'container':
                 # a container into itself is a known finding (DESIGN §6); only emitted when asked for
                 if not self.p.get('allow_known'):
-                    others = [n for n in W.names('container') if n != s[0]]
+                    others = [n for n in self.names('container') if n != s[0]]
                     if not others:
                         return None
                     d = (rng.choice(others), -1)
